@@ -5,6 +5,7 @@ import GluonModel.Model.MimeScan
 -- DIALECT: mime-scan Mime.runScan
 -- DIALECT: mime-split Mime.runSplit
 -- DIALECT: mime-walk Mime.runWalk
+-- DIALECT: judge-c12-walk Mime.judgeWalk
 namespace Gluon.Driver.Mime
 open Gluon.Mime
 
@@ -14,14 +15,17 @@ def hexVal (c : Char) : Option Nat :=
   else if 'A' ≤ c ∧ c ≤ 'F' then some (c.toNat - 'A'.toNat + 10)
   else none
 
-def unhexChars : List Char → Option Bytes
-  | [] => some []
-  | [_] => none
-  | a :: b :: rest => do
-    let x ← hexVal a
-    let y ← hexVal b
-    let r ← unhexChars rest
-    some (UInt8.ofNat (x * 16 + y) :: r)
+/-- accumulator loop (a message of some hundred KB is a line of twice as many characters: no
+    recursion depth proportional to the input) -/
+def unhexLoop : List Char → List UInt8 → Option Bytes
+  | [], acc => some acc.reverse
+  | [_], _ => none
+  | a :: b :: rest, acc =>
+    match hexVal a, hexVal b with
+    | some x, some y => unhexLoop rest (UInt8.ofNat (x * 16 + y) :: acc)
+    | _, _ => none
+
+def unhexChars (cs : List Char) : Option Bytes := unhexLoop cs []
 
 def unhex (s : String) : Option Bytes := if s == "-" then some [] else unhexChars s.toList
 
@@ -89,5 +93,43 @@ def runWalk (args : List String) : String :=
       | .error e => showErr e
     | _, _ => "bad-op"
   | _ => "bad-op"
+
+/-- number of sections and the longest part path of a pre-order listing `depth:header:body:end;…` -/
+def walkShape (flat : String) : Option (Nat × Nat) :=
+  (flat.splitOn ";").foldlM (fun (acc : Nat × Nat) item =>
+    match item.splitOn ":" with
+    | [d, _, _, _] => d.toNat?.map fun dn => (acc.1 + 1, max acc.2 dn)
+    | _ => none) (0, 0)
+
+/-- (sections, longest part path) of the model's section tree -/
+def modelWalkShape (d e : String) : Option (Except String (Nat × Nat)) :=
+  match unhex d, parseEnv e with
+  | some lit, some tbl =>
+    match parseWalk (envOf tbl) lit with
+    | .ok t =>
+      let fl := t.flatten 0
+      some (.ok (fl.length, fl.foldl (fun m x => max m x.1) 0))
+    | .error e => some (.error e)
+  | _, _ => none
+
+/-- C12 on one observed `Parse(...).Walk`: the section tree the implementation walked is as deep as the
+    MIME tree of the message and has as many sections — the MIME tree being what `parseWalk` (the model
+    without any limit on depth, width or length; `sections_of_built_message`: for a well-built message
+    exactly the tree it was built from, at every depth) finds in the same bytes under the same header
+    answers.
+    `judge-c12-walk <hexmsg> <envtable> => ok depth:header:body:end;…` -/
+def judgeWalk (args : List String) : String :=
+  match args with
+  | [d, e, "=>", "ok", flat] =>
+    match modelWalkShape d e, walkShape flat with
+    | some (.ok (mn, mdep)), some (n, dep) =>
+      if dep != mdep then s!"violation tree-depth-differs walked-depth={dep} mime-depth={mdep}"
+      else if n != mn then s!"violation tree-section-count-differs walked-sections={n} mime-parts={mn}"
+      else if dep ≥ 2 then "ok nontrivial-nested" else if n > 1 then "ok nontrivial" else "ok trivial"
+    | some (.error e), _ => "violation model-" ++ e
+    | _, _ => "violation unparsable-implementation-output"
+  | _ :: _ :: "=>" :: "panic" :: _ => "violation panic"
+  | _ :: _ :: "=>" :: "err" :: _ => "violation walk-returned-error"
+  | _ => "violation unparsable-implementation-output"
 
 end Gluon.Driver.Mime
